@@ -559,6 +559,272 @@ class CacheFileUpdate(CacheMemoryUpdate):
     ensures = [CacheMemoryUpdate.stores_every_field, CacheMemoryUpdate.frame, written_through]
 
 
+# ------------------------------------------------------------------------------------------------- pairing <-> cache
+
+
+class _CharCache(StubObj):
+    def __init__(self, entry):
+        self.entry = entry
+
+    def m_get_map(self, it, homekit_id):
+        it.ctx.trace.append(("get_map", homekit_id))
+        return self.entry
+
+    def m_async_create_or_update_map(self, it, *a, **k):
+        it.ctx.trace.append(("update_map", a, k))
+        return {}
+
+
+class _Ctl(StubObj):
+    def __init__(self, cache):
+        self.f__char_cache = cache
+
+
+def _stub_model(it):
+    """assumed contracts (the reading side of the entity map is NOT under contract - bounded stand-in only):
+    Accessories.from_list(l) is the model of the list l; Accessories.serialize() is the list of the model"""
+    from aiohomekit.model import Accessories
+
+    def from_list(it, cls, l):
+        m = SObj(Accessories, label="model")
+        it.ctx.ghost["model"], it.ctx.ghost["model_of"] = m, l
+        return m
+
+    it.env.stub(Accessories.from_list.__func__, from_list)
+
+
+def _restore_setup(it):
+    from aiohomekit.controller.abstract import AbstractPairing
+
+    _stub_model(it)
+    kind = it.ctx.choose(["no-entry", "full-entry", "entry-without-optional-fields"])
+    entry = None
+    if kind != "no-entry":
+        entry = {"config_num": it.fresh(Int, "config_num"), "accessories": SObj(list, label="cached-accessories")}
+        if kind == "full-entry":
+            entry["state_num"] = it.fresh(Int, "state_num")
+            # what serialize_broadcast_key stored: key.hex() of some key (ground instances of the hex round-trip law)
+            from pyvc.stubs_builtin import F_hexenc, F_hexdec, P_hexok, F_lower
+
+            key, hx = it.fresh(Bytes, "stored_key"), it.fresh(Str, "broadcast_key_hex")
+            it.ctx.assume(z3.And(hx.term == F_hexenc(key.term), P_hexok(hx.term), F_hexdec(hx.term) == key.term, F_lower(hx.term) == hx.term))
+            it.env.assumptions_used.add("hex round trip (ground instances): bytes.fromhex(k.hex()) == k, k.hex() is lower-case hexadecimal")
+            entry["broadcast_key"] = hx
+            it.ctx.ghost["key"] = key
+    p = SObj(AbstractPairing, label="pairing")
+    p.fields.update(id="aa:bb:cc:dd:ee:ff", controller=_Ctl(_CharCache(entry)), description=None, _accessories_state=None)
+    it.ctx.ghost.update(kind=kind, entry=entry)
+    return {"self": p}
+
+
+@contract("aiohomekit.controller.abstract:AbstractPairing._load_accessories_from_cache", prop="C20")
+class RestoreFromCache:
+    """restart: the accessory state of a pairing is rebuilt from ITS cache entry with every stored field in its own
+    place - configuration number, state number, broadcast key (hex decoded), accessory list - also for a number 0;
+    no entry: no state, no failure"""
+
+    setup = _restore_setup
+    raises = {}
+    trusted = ["hex round trip of bytes (assumed ground instances)", "Accessories.from_list (assumed: the model of the list it is given)"]
+
+    def restores_every_field(self, ghost, trace):
+        e = ghost["entry"]
+        st = self._accessories_state
+        asked = [t for t in trace if t[0] == "get_map"]
+        if len(asked) != 1 or asked[0][1] != self.id:
+            return False
+        if e is None:
+            return st is None
+        return (
+            st is not None
+            and st.accessories is ghost["model"]
+            and ghost["model_of"] is e["accessories"]
+            and st.config_num == e["config_num"]
+            and (st.state_num == e["state_num"] if "state_num" in e else st.state_num is None)
+            and (st.broadcast_key == ghost["key"] if "broadcast_key" in e else st.broadcast_key is None)
+        )
+
+    ensures = [restores_every_field]
+
+
+class _Model(StubObj):
+    def __init__(self, ser):
+        self.ser = ser
+
+    def m_serialize(self, it):
+        return self.ser
+
+    def sym_truth(self, it):
+        return True
+
+
+def _write_through_setup(it):
+    from aiohomekit.controller.abstract import AbstractPairing
+    from aiohomekit.model import AccessoriesState
+
+    ser = SObj(list, label="serialized-accessories")
+    with_key = bool(it.ctx.choose([1, 0]))
+    with_num = bool(it.ctx.choose([1, 0]))
+    key = it.fresh(Bytes, "broadcast_key") if with_key else None
+    st = it.instantiate(AccessoriesState, [_Model(ser), it.fresh(Int, "config_num"), key, it.fresh(Int, "state_num") if with_num else None], {})
+    p = SObj(AbstractPairing, label="pairing")
+    p.fields.update(id="aa:bb:cc:dd:ee:ff", controller=_Ctl(_CharCache(None)), description=None, _accessories_state=st)
+    it.ctx.ghost.update(ser=ser, st=st)
+    return {"self": p}
+
+
+@contract("aiohomekit.controller.abstract:AbstractPairing._update_accessories_state_cache", prop="C20")
+class WriteThrough:
+    """the cache is handed this pairing's id, configuration number, serialised accessories, broadcast key as hex (or
+    None) and state number - each in the parameter position async_create_or_update_map gives that meaning"""
+
+    setup = _write_through_setup
+    raises = {}
+
+    def every_field_in_its_place(self, ghost, trace):
+        up = [t for t in trace if t[0] == "update_map"]
+        st = ghost["st"]
+        if len(up) != 1:
+            return False
+        a, k = up[0][1], up[0][2]
+        names = ["homekit_id", "config_num", "accessories", "broadcast_key", "state_num"]
+        got = {n: v for n, v in zip(names, a)}
+        for n in k:
+            got[n] = k[n]
+        return (
+            len(got) == 5
+            and got["homekit_id"] == self.id
+            and got["config_num"] == st.config_num
+            and got["accessories"] is ghost["ser"]
+            and (got["broadcast_key"] is None if st.broadcast_key is None else got["broadcast_key"] == st.broadcast_key.hex())
+            and (got["state_num"] is None if st.state_num is None else got["state_num"] == st.state_num)
+        )
+
+    ensures = [every_field_in_its_place]
+
+
+# ------------------------------------------------------------------------------------------------- entity map, reading side
+
+VENDOR_CHAR = "F0000001-0000-1000-8000-0026BB765291"
+VENDOR_SVC = "F0000002-0000-1000-8000-0026BB765291"
+
+
+def _from_dict_setup(it):
+    """one accessory entry as the cache holds it: two vendor services (the second linked to the first, or not), the first
+    with one vendor characteristic (no per-type defaults) whose optional metadata is all absent or all present with
+    ARBITRARY integer / boolean values (incl. 0 and False); the stored value absent, or an arbitrary integer.  Instance ids
+    are concrete (10, 20, 11): the model indexes its dictionaries by them, and the interpreter does not store symbolic
+    keys into concrete dictionaries"""
+    from aiohomekit.model import Accessory
+
+    present = bool(it.ctx.choose([1, 0]))
+    with_value = bool(it.ctx.choose([1, 0]))
+    linked = bool(it.ctx.choose([1, 0]))
+    ch = {"type": VENDOR_CHAR, "iid": 11, "perms": ["pr", "pw", "ev"], "format": "int"}
+    if present:
+        ch.update({
+            "minValue": it.fresh(Int, "minValue"), "maxValue": it.fresh(Int, "maxValue"), "minStep": it.fresh(Int, "minStep"),
+            "handle": it.fresh(Int, "handle"), "broadcast_events": it.fresh(Bool, "broadcast_events"),
+            "disconnected_events": it.fresh(Bool, "disconnected_events"), "valid-values": [it.fresh(Int, "valid0"), it.fresh(Int, "valid1")],
+        })
+    if with_value:
+        ch["value"] = it.fresh(Int, "value")
+    s1 = {"type": VENDOR_SVC, "iid": 10, "characteristics": [ch]}
+    s2 = {"type": VENDOR_SVC, "iid": 20, "characteristics": []}
+    if linked:
+        s2["linked"] = [10]
+    data = {"aid": it.fresh(Int, "aid"), "services": [s1, s2]}
+    it.ctx.ghost.update(ch=ch, present=present, with_value=with_value, linked=linked)
+    return {"cls": Accessory, "data": data}
+
+
+@contract("aiohomekit.model:Accessory.create_from_dict", prop="C20")
+class AccessoryFromDict:
+    """restart, reading side: the model built from a cached entry has every field the entry holds - ids, type, perms,
+    format, range, step, handle, event flags, valid values, value, links - for every integer / boolean value.
+    REAL constructors throughout (Accessory, Service, Characteristic, set_value)."""
+
+    setup = _from_dict_setup
+    raises = {}
+
+    def every_field_restored(data, ghost, result):
+        ch = ghost["ch"]
+        svcs = result.services._services
+        if result.aid != data["aid"] or len(svcs) != 2 or svcs[0].iid != 10 or svcs[1].iid != 20:
+            return False
+        chars = svcs[0].characteristics._characteristics
+        if len(chars) != 1 or len(svcs[1].characteristics._characteristics) != 0:
+            return False
+        c = chars[0]
+        ok = c.iid == ch["iid"] and c.perms is ch["perms"] and c.format == "int" and c.service is svcs[0]
+        if ghost["present"]:
+            ok = (
+                ok
+                and c.minValue == ch["minValue"]
+                and c.maxValue == ch["maxValue"]
+                and c.minStep == ch["minStep"]
+                and c.handle == ch["handle"]
+                and c.broadcast_events == ch["broadcast_events"]
+                and c.disconnected_events == ch["disconnected_events"]
+                and c.valid_values is ch["valid-values"]
+            )
+        else:
+            ok = ok and c.minValue is None and c.maxValue is None and c.minStep is None and c.handle is None and c.valid_values is None
+        if ghost["with_value"]:
+            ok = ok and c._value == ch["value"]
+        return ok
+
+    def links_restored(ghost, result):
+        svcs = result.services._services
+        l2 = svcs[1].linked
+        return len(svcs[0].linked) == 0 and ((ghost["linked"] and len(l2) == 1 and l2[0] is svcs[0]) or (not ghost["linked"] and len(l2) == 0))
+
+    ensures = [every_field_restored, links_restored]
+
+
+def _eval_clauses_natively(con, tag, ns, what):
+    for cl in con.clause_list("ensures"):
+        names = cl.__code__.co_varnames[: cl.__code__.co_argcount]
+        try:
+            ok = cl(*[ns[n] for n in names])
+        except (KeyError, IndexError, AttributeError):
+            ok = False
+        if not ok:
+            return {"confirmed": True, "source": "boundary-corpus", "clause": f"{tag}/ensures.{cl.__name__}", "key": f"{tag}/ensures.{cl.__name__}", "args": repr(what)[:1500]}
+    return None
+
+
+def _from_dict_replay(env, con, obs):
+    """boundary corpus on the REAL classes: declared metadata from {0, 1, -1} x {False, True}, with/without value, link"""
+    import itertools
+    from aiohomekit.model import Accessory
+
+    tried = 0
+    for present, with_value, linked, num, flag in itertools.product((True, False), (True, False), (True, False), (0, 1, -1), (False, True)):
+        ch = {"type": VENDOR_CHAR, "iid": 11, "perms": ["pr", "pw", "ev"], "format": "int"}
+        if present:
+            ch.update({"minValue": num, "maxValue": num, "minStep": num, "handle": num, "broadcast_events": flag, "disconnected_events": flag, "valid-values": [num, num + 1]})
+        if with_value:
+            ch["value"] = num
+        s1 = {"type": VENDOR_SVC, "iid": 10, "characteristics": [ch]}
+        s2 = {"type": VENDOR_SVC, "iid": 20, "characteristics": []}
+        if linked:
+            s2["linked"] = [10]
+        data = {"aid": 1 + abs(num), "services": [s1, s2]}
+        tried += 1
+        try:
+            result = Accessory.create_from_dict(data)
+        except Exception as e:  # noqa: BLE001
+            return {"confirmed": True, "source": "boundary-corpus", "clause": "AccessoryFromDict/no-raise." + type(e).__name__, "key": "AccessoryFromDict/no-raise", "args": repr(data)[:1500]}
+        v = _eval_clauses_natively(con, "AccessoryFromDict", {"data": data, "result": result, "ghost": {"ch": ch, "present": present, "with_value": with_value, "linked": linked}}, data)
+        if v is not None:
+            return v
+    return {"confirmed": False, "inputs_tried": tried}
+
+
+AccessoryFromDict.replay = staticmethod(_from_dict_replay)
+
+
 # ------------------------------------------------------------------------------------------------- native stand-in
 
 
